@@ -134,6 +134,16 @@ check('C09', 'other',
       'Trusted: the generator (its expectation of each field), pickle and the controllers\' use of it, everything C01/C03/C04/C05/C07 trust.',
       'exhaustive-over-versions differential run of generated battles against generator-side expectations (no theorem about the controllers)', 'DESIGN.md §6 C09')
 
+check('C13', 'proof',
+      'Coq theorem over a model in which the process-global subscription tables are threaded through a SEQUENCE of parses: under the finite condition '
+      'stale_safe (a key one version registers and another does not re-register does not exist in the other\'s definitions) every event of a replay is '
+      'handled exactly as in a fresh process after ANY history of earlier parses, and no callback of an earlier parse ever runs; the condition is shown '
+      'necessary by a counter-example. stale_safe is established for the working tree by a generated instance theorem over ALL ordered pairs of the 82 '
+      'bundled versions (keys recorded by constructing every controller; existence in the definitions computed by the extracted model). Dynamic '
+      'confirmation: random sequences of parse calls in one interpreter (all games, strict/lenient, failing files, repetitions) against fresh-interpreter digests.',
+      'Trusted: Coq kernel (vm_compute), translator gen_versions, harness; interpreter-level global state other than the three tables (import caches, sys.path) is only observed dynamically.',
+      'Coq proof of history independence + exhaustive generated instance theorem + dynamic digest comparison', 'DESIGN.md §6 C13')
+
 NOT_YET = {}
 ALL = ['C%02d' % i for i in range(1, 20)]
 def main():
